@@ -196,6 +196,11 @@ func TestProp(t *testing.T) {
 				}
 				s := def.Gen(rt, thorough)
 				ors := def.Oracles()
+				if rl := os.Getenv("KAISIM_RECORD_LAST"); rl != "" {
+					// a previous identical worker died with a Go fatal error: leave the script that is about to run on disk
+					b, _ := json.MarshalIndent(map[string]any{"property": prop, "seed": seed, "class": prop + "/fatal_error", "detail": "the process died with a Go runtime fatal error while running this script", "script": s}, "", " ")
+					_ = os.WriteFile(rl, b, 0o644)
+				}
 				res := RunScript(t, s, ors, false)
 				if def.Post != nil && res.Panic == "" {
 					def.Post(t, s, ors, res)
